@@ -314,7 +314,8 @@ class C05Env:
 
     def __enter__(self):
         want = {self.VARS["batching"]: "0" if self.env.get("batching", True) else "1",
-                "TORCHSNAPSHOT_PER_RANK_MEMORY_BUDGET_BYTES": "100000000"}
+                "TORCHSNAPSHOT_PER_RANK_MEMORY_BUDGET_BYTES": str(self.env.get("budget") or 100000000),
+                "TORCHSNAPSHOT_MAX_PER_RANK_IO_CONCURRENCY_OVERRIDE": None if not self.env.get("ioc") else str(self.env["ioc"])}
         for k in ("chunk", "slab", "shard"):
             want[self.VARS[k]] = None if self.env.get(k) is None else str(self.env[k])
         for k, v in want.items():
@@ -785,7 +786,9 @@ def gen_env(rng):
     return {"batching": rng.random() < 0.6,
             "chunk": rng.choice([None, None, 1, 7, 8, 16, 64]),
             "slab": rng.choice([None, None, 1, 9, 16, 40, 128]),
-            "shard": rng.choice([None, 8, 32])}
+            "shard": rng.choice([None, 8, 32]),
+            # a tight per-rank memory budget: staging overlaps I/O, requests wait for budget (None = ample)
+            "budget": rng.choice([None, None, 1, 16, 64]), "ioc": rng.choice([None, None, 1, 2])}
 
 
 def gen_spec(rng):
